@@ -26,6 +26,9 @@ typedef Basis::Desc Desc;
 #define VNC 2
 #endif
 #define VMAX (VNR > VNC ? VNR : VNC)
+#if VNR < 2 || VNR > 3 || VNC < 2 || VNC > 3
+#error "dimensions 2..3 only"
+#endif
 
 struct TS : public Solver { TS(Solver::Type t, Solver::Representation r) : Solver(t, r) {} };
 #ifndef VP_NATIVE
@@ -179,12 +182,11 @@ template<int REP, bool ROWS> static void remove_one_at(int c)
 // the index is arbitrary, but concrete within each scenario (the LP's own renumbering is not the subject here)
 template<int REP, bool ROWS> static void remove_one()
 {
-#ifdef IDX
-   remove_one_at<REP, ROWS>(IDX);
-#else
-   int i = vp_int_in(0, (ROWS ? VNR : VNC) - 1);
-   for(int c = 0; c < (ROWS ? VNR : VNC); ++c) if(i == c) remove_one_at<REP, ROWS>(c);
-#endif
+   const int N = ROWS ? VNR : VNC;
+   int i = vp_int_in(0, N - 1);
+   // exclusive branches: every scenario starts from the same untouched memory
+   if(N == 2) { if(i == 0) remove_one_at<REP, ROWS>(0); else remove_one_at<REP, ROWS>(1); }
+   else { if(i == 0) remove_one_at<REP, ROWS>(0); else if(i == 1) remove_one_at<REP, ROWS>(1); else remove_one_at<REP, ROWS>(2); }
    vp_cover(1);
 }
 template<int REP> static void remove_perm()
